@@ -118,7 +118,7 @@ def run(pid, tier, seed, replay=None):
     chk.counters['update_instance_transitions'] = len(upd)
     if not thorough:
         rnd.shuffle(upd)
-        upd = upd[:600]
+        upd = upd[:400]
     jobs_a = [{'id': i, 'targets': ['T1'], 'events': events_of(h)} for i, h in enumerate(trans)]
     jobs_a += [{'id': 2 * 10**6 + i, 'targets': ['T1'], 'events': events_of(h)} for i, h in enumerate(upd)]
     jobs_c = [{'id': 10**6 + i, 'targets': ['T1', 'T2'], 'events': events_of(h)} for i, h in enumerate(lean)]
